@@ -26,7 +26,8 @@ EXPLANATION = (
     'up before inserting and reuses; (BND.1) the whitespace/comment skipper never steps past the '
     'terminating NUL (so a comment cannot swallow the rest of the file unnoticed); (GRD.3/GRD.4) the value '
     'setters\' change predicates and the merge\'s presence handling (shared with C15), on which "later '
-    'duplicates override earlier ones" rests.  Tree equality is NOT decided.')
+    'duplicates override earlier ones" rests.  Tree equality is NOT decided.'
+    ' Rounds 8-9: (GRD.6) an empty file is an empty tree (the length handed to fread is not 0 where 0 means failure); (OWN.2) configuration texts are read-only outside the configuration unit.')
 ASSUMPTIONS = ['clang 14 CFG', 'documented grammar: doc/iauthd-c.conf.example lines 1-14']
 
 U = frozenset([0, ord(';'), ord('\n'), ord('}'), ord(')'), ord('('), ord('{'), ord(','), -1])   # -1 = any other character
